@@ -107,6 +107,13 @@ func (f *Track1) Unpack(data []byte) (int, error) {
 		if err != nil {
 			return 0, err
 		}
+	} else {
+		// an empty value carries no components: forget those of a previous value
+		f.FormatCode, f.PrimaryAccountNumber, f.Name = "", "", ""
+		f.ExpirationDate, f.ServiceCode, f.DiscretionaryData = nil, "", ""
+		if f.data != nil {
+			*(f.data) = *f
+		}
 	}
 
 	return bytesRead, nil
